@@ -119,6 +119,13 @@ class Context:
             r = _exact_sqrt(c)
             if r is not None:
                 return self.const(r)
+        if u.num:
+            lm = _lead(u.num)
+            cc = abs(u.num[lm])
+            if cc != 1:
+                r = _exact_sqrt(cc)
+                if r is not None:
+                    return self._f_sqrt(u / cc) * r
         # sqrt(v**2 * w) is NOT simplified (sign of v unknown) except for perfect
         # square monomials of atoms declared positive -- not needed; keep atom.
         # sqrt(n/d) = sqrt(n*d)/|d| needs a sign too, so keep the argument whole.
@@ -160,12 +167,16 @@ class Context:
     def _f_log(self, u):
         if (u - self.const(1)).is_zero():
             return self.const(0)
-        # log(1/v) = -log(v) when numerator is constant 1
+        # log(1/v) = -log(v): keep the orientation whose numerator is the larger polynomial
         n, d = u.num, u.den
-        if _poly_const(n) is not None and _poly_const(d) is None:
-            c = _poly_const(n)
-            if c == 1:
-                return -self._f_log(Rat(self, d, _pone()))
+        def key(p):
+            items = sorted(p.items())
+            s0 = 1 if items[0][1] > 0 else -1
+            return (len(p), [m for m, _ in items], [s0 * (1 if c > 0 else -1) for _, c in items])
+
+        flip = key(n) < key(d)
+        if flip:
+            return -self._f_log(u.inv())
         return Rat.from_atom(self, self.func_atom("log", [u]))
 
     def _f_erf(self, u):
@@ -181,9 +192,25 @@ class Context:
         q = u / Rat.from_atom(self, pi)
         return q.as_const()
 
+    def _pi_shift(self, u):
+        """u = v + k*pi with v syntactically smaller: return (v, k) else (u, 0)"""
+        if "pi" not in self._leaf:
+            return u, 0
+        pi = Rat.from_atom(self, self._leaf["pi"])
+        best = (u, 0)
+        for k in (1, -1, 2, -2):
+            v = u - k * pi
+            if len(v.num) < len(best[0].num):
+                best = (v, k)
+        return best
+
     def _f_sin(self, u):
         if u.is_zero():
             return self.const(0)
+        v, k = self._pi_shift(u)
+        if k:
+            r = self._f_sin(v)
+            return -r if k % 2 else r
         q = self._trig_special(u)
         if q is not None:
             q2 = (q * 2) % 4
@@ -197,6 +224,10 @@ class Context:
     def _f_cos(self, u):
         if u.is_zero():
             return self.const(1)
+        v, k = self._pi_shift(u)
+        if k:
+            r = self._f_cos(v)
+            return -r if k % 2 else r
         q = self._trig_special(u)
         if q is not None:
             q2 = (q * 2) % 4
@@ -205,7 +236,11 @@ class Context:
                 return self.const(tab[q2])
         if u.leading_sign() < 0:
             u = -u
-        return Rat.from_atom(self, self.func_atom("cos", [u]))
+        a = self.func_atom("cos", [u])
+        if a.id not in self.relations:
+            s = self._f_sin(u)
+            self.relations[a.id] = (2, self.const(1) - s * s)  # cos^2 = 1 - sin^2
+        return Rat.from_atom(self, a)
 
     def _f_tan(self, u):
         return self._f_sin(u) / self._f_cos(u)
